@@ -487,6 +487,10 @@ impl DictionaryCompressor {
                 if offset == 0 || result.len() < offset as usize {
                     return Err(ZiporaError::invalid_data("Invalid back-reference offset"));
                 }
+                // compress() never emits a match longer than max_match_length
+                if length > self.max_match_length {
+                    return Err(ZiporaError::invalid_data("Match length exceeds maximum match length"));
+                }
 
                 let start_pos = result.len() - offset as usize;
 
@@ -803,6 +807,10 @@ impl OptimizedDictionaryCompressor {
 
                 if offset == 0 || result.len() < offset as usize {
                     return Err(ZiporaError::invalid_data("Invalid back-reference offset"));
+                }
+                // compress() never emits a match longer than max_match_length
+                if length > self.max_match_length {
+                    return Err(ZiporaError::invalid_data("Match length exceeds maximum match length"));
                 }
 
                 let start_pos = result.len() - offset as usize;
